@@ -149,3 +149,41 @@ fn c05_blp_parse_dxt1_hostile_header() { dxtn_hostile(DxtnFormat::Dxt1) }
 #[kani::stub(f32::log2, crate::parser::verif_kani_parser::log2_model)]
 #[kani::unwind(20)]
 fn c05_blp_parse_dxt5_hostile_header() { dxtn_hostile(DxtnFormat::Dxt5) }
+
+// ------------------------------------------------------------------ C16.c the DXT variant is chosen by the alpha type alone
+/// BLP2 DXTC content: alpha type 0 -> DXT1, 1 -> DXT3, 7 -> DXT5 (published format), whatever the alpha-depth byte
+/// says (the converter writes depth 0 for DXT3/DXT5 without alpha): the parsed content has that variant and its
+/// level has the variant's block size
+#[kani::proof]
+#[kani::stub(::std::fmt::format, vio::fmt_stub)]
+#[kani::unwind(260)]
+fn c16c_dxt_variant_follows_alpha_type() {
+    // 1024 palette bytes (zero) followed by one 16-byte block
+    let mut file = [0u8; 1040];
+    let blk: [u8; 16] = kani::any();
+    let mut k = 0;
+    while k < 16 { file[1024 + k] = blk[k]; k += 1; }
+    let which: u8 = kani::any();
+    kani::assume(which < 3);
+    let (at, block) = match which { 0 => (AlphaType::None, 8usize), 1 => (AlphaType::OneBit, 16), _ => (AlphaType::Enhanced, 16) };
+    let mut offsets = [0u32; 16];
+    let mut sizes = [0u32; 16];
+    offsets[0] = 1024;
+    sizes[0] = 16;
+    let mut hd = dxt_header(4, 4, at, 0, offsets, sizes);
+    let depth: u8 = kani::any();
+    if let BlpFlags::Blp2 { alpha_bits, .. } = &mut hd.flags { *alpha_bits = depth; }
+    let r = super::parse_direct_content(&hd, |_i| Ok(None), &file, &file);
+    kani::cover!(r.is_ok() && which == 2 && depth == 0);
+    assert!(r.is_ok(), "BLP2 DXT content with a published alpha type is rejected");
+    let c = r.unwrap();
+    let (variant, len, first) = match &c {
+        BlpContent::Dxt1(d) => (0u8, d.images[0].content.len(), d.images[0].content[0]),
+        BlpContent::Dxt3(d) => (1u8, d.images[0].content.len(), d.images[0].content[0]),
+        BlpContent::Dxt5(d) => (2u8, d.images[0].content.len(), d.images[0].content[0]),
+        _ => (9u8, 0, 0),
+    };
+    assert!(variant == which, "DXT variant of the parsed content differs from the one the alpha type announces");
+    assert!(len == block && first == blk[0], "DXT level read with another variant's block size");
+    std::mem::forget(c);
+}
